@@ -322,6 +322,7 @@ def _static_reset_before_use(db, M, f, name):
         return False, 'class of static not found'
     fields = {x['name'] for x in rec['fields']}
     killed = set()
+    kill_pos = {}
     for n in calls:
         t = db.by_mn.get(n.get('mn') or '')
         if t is None:
@@ -329,6 +330,7 @@ def _static_reset_before_use(db, M, f, name):
         for ev in M.direct_events(t):
             if ev[0] in fields and _is_kill(ev):
                 killed.add(ev[0])
+                kill_pos.setdefault(ev[0], []).append(f.position_of(n))
     # direct kills of a member of the static object: generator.text.clear(); generator.x = ...
     for n in f.walk():
         tgt = None
@@ -341,6 +343,7 @@ def _static_reset_before_use(db, M, f, name):
             base = f.strip(f.children(tgt)[0]) if tgt.get('c') else None
             if base is not None and base.get('name') == name and base.get('dk') == 'staticlocal':
                 killed.add(tgt['member'])
+                kill_pos.setdefault(tgt['member'], []).append(f.position_of(n))
     # mod set of everything reachable from the function through the object
     W = set()
     for m in M.reachable_methods(f, cls):
@@ -351,6 +354,13 @@ def _static_reset_before_use(db, M, f, name):
     missing = sorted(W - killed)
     if missing:
         return False, 'shared static `%s`: members %s are modified during a call but not re-initialised before the next one' % (name, missing)
+    # the re-initialisation happens on every path through the owner, not only on some
+    succ_, entry_, exit_ = f.graph()
+    exits_ = [(p, '') for p, r in f.return_sites()] + [(exit_, '')]
+    for mem in sorted(W):
+        ps = [p for p in kill_pos.get(mem, []) if p is not None]
+        if ps and paths_avoiding(f, [entry_], ps, exits_):
+            return False, 'shared static `%s`: member `%s` is re-initialised only on some paths through %s; on the others the caller receives what an earlier call left there' % (name, mem, f.name.split('::')[-1])
     # the kills must precede the visit: the first non-kill call on the object comes after them — checked by order of positions
     return True, 'members %s re-initialised at the start of every call' % sorted(W)
 
